@@ -181,6 +181,13 @@ func textCases[T any](cs []absCase, val func(i int) T) []test.CaseText[T] {
 		if use, f := hookErr(c.B); use {
 			out[i].Before = func(int, *test.CaseText[T]) error { return f() }
 		}
+		if c.B == "set" {
+			// the case is completed by its Before hook (the hook receives the case to prepare it):
+			// the table holds placeholder data, the hook puts in the data the case is about
+			i := i
+			out[i].Data = "bogus"
+			out[i].Before = func(_ int, c *test.CaseText[T]) error { c.Data = dataOf(i); return nil }
+		}
 		if use, f := hookErr(c.A); use {
 			out[i].After = func(int, *test.CaseText[T]) error { return f() }
 		}
@@ -195,6 +202,13 @@ func binaryCases[T any](cs []absCase, val func(i int) T) []test.CaseBinary[T] {
 		if use, f := hookErr(c.B); use {
 			out[i].Before = func(int, *test.CaseBinary[T]) error { return f() }
 		}
+		if c.B == "set" {
+			// the case is completed by its Before hook (the hook receives the case to prepare it):
+			// the table holds placeholder data, the hook puts in the data the case is about
+			i := i
+			out[i].Data = []byte("bogus")
+			out[i].Before = func(_ int, c *test.CaseBinary[T]) error { c.Data = []byte(dataOf(i)); return nil }
+		}
 		if use, f := hookErr(c.A); use {
 			out[i].After = func(int, *test.CaseBinary[T]) error { return f() }
 		}
@@ -208,6 +222,13 @@ func jsonCases[T any](cs []absCase, val func(i int) T) []test.CaseJSON[T] {
 		out[i] = test.CaseJSON[T]{Constraint: constraintOf(c.C), Error: predicate(c), Data: dataOf(i), Value: val(i)}
 		if use, f := hookErr(c.B); use {
 			out[i].Before = func(int, *test.CaseJSON[T]) error { return f() }
+		}
+		if c.B == "set" {
+			// the case is completed by its Before hook (the hook receives the case to prepare it):
+			// the table holds placeholder data, the hook puts in the data the case is about
+			i := i
+			out[i].Data = "bogus"
+			out[i].Before = func(_ int, c *test.CaseJSON[T]) error { c.Data = dataOf(i); return nil }
 		}
 		if use, f := hookErr(c.A); use {
 			out[i].After = func(int, *test.CaseJSON[T]) error { return f() }
